@@ -124,6 +124,7 @@ def _single_faults(tbl):
     faults = []
     faults.append({"module": "nosuchpkg", "test": "gross_range_test", "params": {"fail_span": [0, 1]}, "role": "F1"})
     faults.append({"module": "qartod", "test": "no_such_test", "params": {"threshold": 1}, "role": "F2"})
+    faults.append({"module": "axds", "test": "gross_range_test", "params": {"threshold": 1}, "role": "F2"})  # a real name, in a package that lacks it
     for module, test, params in (
         ("qartod", "gross_range_test", {"fail_span": [0, 1], "suspect_span": [-1, 2]}),
         ("qartod", "spike_test", {"suspect_threshold": 1, "method": "median"}),
